@@ -505,7 +505,12 @@ class Check:
             "wall_s": round(wall, 2),
             "violations": len(self.viol),
         }
-        path = os.path.join(VERIF, "evidence", f"{self.pid}.json")
+        if self.args.no_proofs or os.environ.get("VERIF_ARIM_SRC"):
+            # development runs (no Coq step, or a scratch copy of the sources) never touch the
+            # committed evidence
+            path = os.path.join(self.work, f"evidence_dev_{self.pid}.json")
+        else:
+            path = os.path.join(VERIF, "evidence", f"{self.pid}.json")
         with open(path, "w") as f:
             json.dump(ev, f, indent=1, default=_json_default)
         print(f"# {self.pid} tier={self.tier} seed={self.seed}: obligations={self.obligations} "
